@@ -261,6 +261,28 @@ def main(tier, replay):
                     if b.get("error") or a["frames"] != b["frames"]:
                         ctx.violation("c16:with_activate:reply-sequence-differs", {"engine": "c16", "variant": variant, "sequence": ref["sequences"][i], "reference": a, "observed": b})
                         break
+        # a service that is not there: a path nobody listens on is an error at once; an
+        # activation command that cannot be started, exits at once or exits before it accepts
+        # must be an error too (the listening socket is the service's, nobody else holds it) -
+        # never a call that waits for ever. Judged after a repetition only.
+        gone_ref, _, gst, _ = run_client(vh, "address", "unix:%s/nobody-listens" % tmp, seed, 1, timeout=30)
+        for gi, cmd in enumerate(["/nonexistent/verif-cmd $VARLINK_ADDRESS", "true", "sleep 0.2", "exit 3"]):
+            hung = 0
+            res = None
+            for attempt in range(2):
+                res, early, st, extra = run_client(vh, "activate", cmd, seed, 1, timeout=20)
+                if st != "hang":
+                    break
+                hung += 1
+            ctx.case(("activate-gone", cmd))
+            ctx.count("activation_commands_that_never_serve", 1)
+            if hung == 2:
+                ctx.violation("c16:with_activate:client-hangs-when-the-service-is-gone", {"engine": "c16", "command": cmd, "detail": extra,
+                              "message": "the client waited more than 20 s (twice) for a socket-activated service whose command %r never serves; the same call to a unix path nobody listens on gives %r" % (cmd, (gone_ref or {}).get("results"))})
+            elif hung == 1:
+                ctx.inconc({"activate-gone": cmd, "why": "hung once, not when repeated"})
+            elif res is not None and any(not r.get("error") and r.get("frames") for r in res["results"]):
+                ctx.violation("c16:with_activate:replies-from-a-service-that-is-gone", {"engine": "c16", "command": cmd, "observed": res["results"]})
         t1 = time.time()
         env_matrix(ctx, vh, tmp, tier)
         t2 = time.time()
